@@ -2,7 +2,7 @@
 From LC Require Import Lib.Bytes Lib.Lex Lib.Fields Lib.PathM Gen.Consts
   Model.MountInfo Model.FsTree Model.Kernel Model.Layers Cases.Verdict Cases.LC.
 Open Scope N_scope.
-Import LC.
+Import LC LCS.
 
 Module C02.
 Definition case := LC.case.
@@ -15,17 +15,6 @@ Definition forest_ok (c : cfgT) (f : fsT) : bool :=
 Definition layers_of (c : cfgT) (f : fsT) : lmap := read_layer_files c f.
 Definition exists_layer (m : lmap) (n : bytes) : bool := match lm_get m n with Some _ => true | None => false end.
 Definition usable_name (n : bytes) : bool := negb (beq n []) && legal_name n.
-
-(* is d a (proper or improper) descendant of a in the forest m? *)
-Fixpoint descends (fuel : nat) (m : lmap) (a d : bytes) : bool :=
-  beq a d ||
-  match fuel with
-  | O => false
-  | S f' => match lm_get m d with
-            | Some l => (match l_base l with [] => false | b0 => descends f' m a b0 end)
-            | None => false
-            end
-  end.
 
 (* requests the property says must be refused *)
 Definition breaking (c : cfgT) (f : fsT) (cmd : command) : bool :=
